@@ -98,13 +98,20 @@ def run(tier='quick'):
             chk.violation(P3, '%s|start sentinel' % _short(qn), locstr(f.node), inst + ': no lookup of the sentinel found')
         # the tail lookup is tested before use by something that leaves (throw / return), not an assert
         guarded = False
+        tail_vars = set()
+        for n in walk(f.body):
+            if n.get('kind') == 'VarDecl':
+                init = [x for x in children(n) if not x['kind'].endswith('Attr') and not x['kind'].endswith('Comment')]
+                if init and any(x.get('kind') == 'CXXMemberCallExpr' and strip(children(x)[0]).get('name') == 'find'
+                                for x in walk(init[-1])):
+                    tail_vars.add(n.get('name'))
         for n in walk(f.body):
             if n.get('kind') == 'IfStmt':
                 c = children(n)
                 cond_refs = [strip(children(x)[0]).get('name') for x in walk(c[0]) if x.get('kind') == 'CXXMemberCallExpr']
                 leaves_ = any(x.get('kind') in ('CXXThrowExpr', 'ReturnStmt') for x in walk(c[1]))
                 names = [(x.get('referencedDecl') or {}).get('name') for x in walk(c[0]) if x.get('kind') == 'DeclRefExpr']
-                if 'end' in cond_refs and 'curr' in names and leaves_:
+                if 'end' in cond_refs and (tail_vars & set(names)) and leaves_:
                     guarded = True
         inst = '%s tests the tail lookup against end() before dereferencing it' % _short(qn)
         if guarded:
